@@ -2104,3 +2104,51 @@ func (r *Report) FlagOnlyUnderVal(key, fnKey, callee string, idx int, valAtom st
 	}
 	r.OK(k, d, w.Pos(calls[0].Pos()), fmt.Sprintf("%d edge(s) behind %d check(s)", nset, n))
 }
+
+// =====================================================================================
+// E10 unchecked native-width arithmetic
+
+// NoNativeArith: fn (and its closures) performs no native integer `ops` whose operands derive from atoms.
+// Loop-carried accumulations (a phi that feeds itself through the operation) are what overflow silently.
+func (r *Report) NoNativeArith(key, fnKey string, ops []string, atoms ...string) {
+	w := r.W
+	fn := w.Fn(fnKey)
+	d := fmt.Sprintf("%s performs no native-width integer %v on values derived from {%s} (overflow wraps silently)", fnKey, ops, strings.Join(atoms, ", "))
+	k := key + "|" + fnKey + "|" + strings.Join(ops, "")
+	if fn == nil {
+		r.Unres(k, d, "function not found")
+		return
+	}
+	w.FuncsAnalysed[fn] = true
+	n := 0
+	for _, f := range append([]*ssa.Function{fn}, fn.AnonFuncs...) {
+		for _, b := range f.Blocks {
+			for _, in := range b.Instrs {
+				bo, ok := in.(*ssa.BinOp)
+				if !ok {
+					continue
+				}
+				bt, isBasic := bo.Type().Underlying().(*types.Basic)
+				if !isBasic || bt.Info()&types.IsInteger == 0 {
+					continue
+				}
+				hit := false
+				for _, o := range ops {
+					if bo.Op.String() == o {
+						hit = true
+					}
+				}
+				if !hit {
+					continue
+				}
+				n++
+				t := Render(bo)
+				if t.Has(atoms...) {
+					r.Bad(k, d, w.posOr(bo.Pos(), f), "native "+bo.Op.String()+" on "+clip(t.String(), 200))
+					return
+				}
+			}
+		}
+	}
+	r.OK(k, d, w.FnPos(fn), fmt.Sprintf("%d native operations of that kind examined, none on the listed sources", n))
+}
